@@ -244,6 +244,8 @@ class EdgeQLSourceGenerator(codegen.SourceGenerator):
         return (
             parent is not None
             and not isinstance(parent, qlast.DDL)
+            # ANALYZE takes a bare statement
+            and not isinstance(parent, qlast.ExplainStmt)
             # Non-union FOR bodies can't have parens
             and not (
                 isinstance(parent, qlast.ForQuery)
@@ -2820,6 +2822,17 @@ class EdgeQLSourceGenerator(codegen.SourceGenerator):
         if node.options:
             self.write(' ')
             self.visit(node.options)
+
+    def visit_ExplainStmt(self, node: qlast.ExplainStmt) -> None:
+        self._write_keywords('ANALYZE ')
+        if node.args:
+            self.visit(node.args)
+            self.write(' ')
+        self.visit(node.query)
+
+    def visit_AdministerStmt(self, node: qlast.AdministerStmt) -> None:
+        self._write_keywords('ADMINISTER ')
+        self.visit(node.expr)
 
     def visit_Options(self, node: qlast.Options) -> None:
         first = True
